@@ -1,5 +1,5 @@
 SPECIFICATION Spec
-CONSTANT Topos = {1, 2, 3, 4, 5, 6}
+CONSTANT Topos = {1, 2, 3, 4, 5, 6, 7, 8, 9}
 CONSTANT Amts = {1, 1000, 100000, 2000000}
 INVARIANT Emit
 CHECK_DEADLOCK FALSE
